@@ -27,6 +27,9 @@ struct State {
     ticks: BTreeMap<&'static str, u64>,
     /// Whether tick counting is enabled.
     ticking: bool,
+    /// Ticks since the last `work_begin`, and the optional ceiling for that span.
+    work: u64,
+    work_limit: Option<u64>,
 }
 
 thread_local! {
@@ -88,14 +91,48 @@ pub fn trace_take() -> Vec<&'static str> {
 }
 
 /// Counts one unit of work at `site`.
+///
+/// When a work limit is set (`work_begin(Some(limit))`) and the number of ticks since then
+/// exceeds it, this panics with a message starting with `verif: work limit exceeded`, which
+/// turns an unbounded loop inside a library call into an observable event for the monitor
+/// (the monitor catches the unwind; the library contains no `unsafe`).
 #[inline]
 pub fn tick(site: &'static str) {
-    STATE.with(|s| {
+    let exceeded = STATE.with(|s| {
         let mut s = s.borrow_mut();
         if s.ticking {
             *s.ticks.entry(site).or_insert(0) += 1;
         }
+        s.work += 1;
+        match s.work_limit {
+            Some(limit) if s.work > limit => {
+                s.work_limit = None;
+                Some((s.work, limit))
+            }
+            _ => None,
+        }
     });
+    if let Some((work, limit)) = exceeded {
+        panic!("verif: work limit exceeded at site {site}: {work} ticks > limit {limit}");
+    }
+}
+
+/// Starts a new work span (resets the span counter) with an optional ceiling.
+pub fn work_begin(limit: Option<u64>) {
+    STATE.with(|s| {
+        let mut s = s.borrow_mut();
+        s.work = 0;
+        s.work_limit = limit;
+    });
+}
+
+/// Ends the work span: clears the ceiling and returns the ticks counted in the span.
+pub fn work_end() -> u64 {
+    STATE.with(|s| {
+        let mut s = s.borrow_mut();
+        s.work_limit = None;
+        s.work
+    })
 }
 
 /// Enables or disables tick counting on this thread.
